@@ -245,7 +245,7 @@ impl PartialEq for KeyFormatVersions {
     fn eq(&self, other: &Self) -> bool {
         if self.len() == other.len() {
             // only compare the parts in the buffer, that are used:
-            self.as_ref() == self.as_ref()
+            self.as_ref() == other.as_ref()
         } else {
             false
         }
